@@ -1,5 +1,6 @@
 import LivesimVerif.Model.ChunkParser
 import LivesimVerif.Model.Limiter
+import LivesimVerif.Model.Scte
 import Driver.Util
 import Driver.Recv
 /-! Line-protocol driver: one operation per input line, one canonical result per output line. -/
@@ -55,10 +56,22 @@ def opLim (args : List String) : String :=
     | _, _, _, _ => "bad-op"
   | _ => "bad-op"
 
+/-! ### C13: `scte <segStart> <segEnd> <T> <N>` -/
+def opScte (args : List String) : String :=
+  match args.mapM (·.toNat?) with
+  | some [s, e, t, n] =>
+    if t = 0 then "bad-op" else
+    match Scte.createEmsgAhead s e t n with
+    | .invalid => "invalid"
+    | .none => "none"
+    | .ev x => s!"ev splice={x.splice} id={x.id} dur={x.dur} pts={x.pts} brk={x.brk} adj={x.adj}"
+  | _ => "bad-op"
+
 def step (line : String) : String :=
   match (line.trimAscii.toString.splitOn " ").filter (· ≠ "") with
   | "parse" :: args => opParse args
   | "lim" :: args => opLim args
+  | "scte" :: args => opScte args
   | "ctr" :: args => opCtr args
   | "buf" :: args => opBuf args
   | "gen" :: args => opGen args
